@@ -64,12 +64,16 @@ Inductive op :=
 | OStepCkptF (d id : N) (f : N)                (* step of the asynchronous part of Checkpoint with a storage fault (WAL save; list save as above) *)
 | OStepFlushF (d : N)                          (* flush task whose first table Save fails: the task ends with an error, nothing is swapped *)
 | ORestore (d id : N) (same : bool) (o : own) (nb : nbmode)
-| ORestoreM (d id : N) (dirs : list N) (o : own) (nb : nbmode)   (* restore, into a fresh directory, from the handles (id, dir) of several instances (or of one named instance) *)
+| ORestoreM (d id : N) (dirs : list N) (same : bool) (o : own) (nb : nbmode)
+    (* restore from the handles (id, dir) of several instances (or of one named instance), into a fresh directory or - same -
+       into the directory of the first handle (the surviving instance is redeployed in place) *)
 | OOpen (d : N)                                                    (* a further fresh database in a fresh directory *)
 | OCrash (d : N)
 | ODrop (d : N)
 | OGc
-| ORead (d : N).
+| ORead (d : N)
+| OSeq (a b : op).   (* two steps observed as one: a step that another one overlapped (a Save parked inside its file commit while a second
+                        Save / a retention update was issued); in the code as it is the second takes effect after the first *)
 
 Definition init_world (mem walmax : N) : world :=
   mkWorld [] [mkW (db_new mem walmax) 0 OwnAll NbNone 0 [] [] FNone 0 CNone 0 [] [] Live] [] 1 mem walmax [].
@@ -351,7 +355,7 @@ Definition retain_ok (w : world) (d : N) (ids : list N) (f : N) : bool :=
   | None => true
   end.
 
-Definition step (w : world) (o : op) : world :=
+Fixpoint step (w : world) (o : op) : world :=
   match o with
   | OPut d k v _ => fst (write_op w d k false v)
   | ODel d k _ => fst (write_op w d k true [])
@@ -427,10 +431,13 @@ Definition step (w : world) (o : op) : world :=
           let gone := if same then map fst (filter (fun h => (snd h =? dir) && negb (fst h =? id)) (g_handles w)) else [] in
           add_db (add_dropped w gone) x (negb same)
       end
-  | ORestoreM _ id dirs o nb =>
-      match open_fromM w id dirs (g_nextdir w) o nb with
-      | RFail _ => add_db w (dead_db w) true
-      | ROpen x => add_db w x true
+  | ORestoreM _ id dirs same o nb =>
+      let dir := if same then hd 0 dirs else g_nextdir w in
+      match open_fromM w id dirs dir o nb with
+      | RFail _ => add_db w (dead_db w) (negb same)
+      | ROpen x =>
+          let gone := if same then map fst (filter (fun h => (snd h =? dir) && negb (fst h =? id)) (g_handles w)) else [] in
+          add_db (add_dropped w gone) x (negb same)
       end
   | OOpen _ => add_db w (mkW (db_new (g_mem w) (g_walmax w)) (g_nextdir w) OwnAll NbNone 0 [] [] FNone 0 CNone 0 [] [] Live) true
   | OCrash d => match get_db w d with Some x => set_db w d (with_state x Crashed) | None => w end
@@ -439,6 +446,7 @@ Definition step (w : world) (o : op) : world :=
       let '(f, dbs, _) := fold_left (gc_db w) (g_dbs w) (g_fs w, [], []) in
       mkWorld f dbs (g_handles w) (g_nextdir w) (g_mem w) (g_walmax w) (g_dropped w)
   | ORead _ => w
+  | OSeq a b => step (step w a) b
   end.
 
 Definition gc_deleted (w : world) : list fname :=
